@@ -132,6 +132,7 @@ Color = Union[
     float,  # Greyscale
     Tuple[float, float, float],  # R, G, B
     Tuple[float, float, float, float],  # C, M, Y, K
+    Tuple[float, ...],  # any other number of components (DeviceN)
 ]
 
 
@@ -747,12 +748,13 @@ class PDFPageInterpreter:
         """Initial colour of a colour space (PDF 32000-1, table 74)"""
         if cs.name == "DeviceCMYK":
             return (0.0, 0.0, 0.0, 1.0)
-        elif cs.name in ("DeviceRGB", "CalRGB", "Lab"):
-            return (0.0, 0.0, 0.0)
-        elif cs.name in ("DeviceGray", "CalGray", "Indexed"):
-            return 0.0
-        # Separation, DeviceN, ICCBased, Pattern: not tracked
-        return None
+        elif cs.name == "Pattern":
+            return None
+        # all tints 1.0 in Separation and DeviceN, all components 0.0 elsewhere
+        value = 1.0 if cs.name in ("Separation", "DeviceN") else 0.0
+        if cs.ncomponents == 1:
+            return value
+        return tuple(value for _ in range(cs.ncomponents))
 
     def do_CS(self, name: PDFStackT) -> None:
         """Set color space for stroking operations
@@ -860,7 +862,7 @@ class PDFPageInterpreter:
                 raise PDFInterpreterError("No colorspace specified!")
             n = 1
 
-        if n in (1, 3, 4) and len(self.argstack) < n:
+        if len(self.argstack) < n:
             log.warning(
                 f"Cannot set stroke color because {n} operands are needed but only {len(self.argstack)} are given"
             )
@@ -899,9 +901,14 @@ class PDFPageInterpreter:
                 self.graphicstate.scolor = cmyk
 
         else:
-            log.warning(
-                f"Cannot set stroke color because {n} components are specified but only 1 (grayscale), 3 (rgb) and 4 (cmyk) are supported"
-            )
+            values = self.pop(n)
+            floats = [safe_float(value) for value in values]
+            if any(f is None for f in floats):
+                log.warning(
+                    f"Cannot set stroke color because not all values in {values!r} can be parsed as floats"
+                )
+            else:
+                self.graphicstate.scolor = tuple(cast(List[float], floats))
 
     def do_scn(self) -> None:
         """Set color for nonstroking operations"""
@@ -912,7 +919,7 @@ class PDFPageInterpreter:
                 raise PDFInterpreterError("No colorspace specified!")
             n = 1
 
-        if n in (1, 3, 4) and len(self.argstack) < n:
+        if len(self.argstack) < n:
             log.warning(
                 f"Cannot set non-stroke color because {n} operands are needed but only {len(self.argstack)} are given"
             )
@@ -952,9 +959,14 @@ class PDFPageInterpreter:
                 self.graphicstate.ncolor = cmyk
 
         else:
-            log.warning(
-                f"Cannot set non-stroke color because {n} components are specified but only 1 (grayscale), 3 (rgb) and 4 (cmyk) are supported"
-            )
+            values = self.pop(n)
+            floats = [safe_float(value) for value in values]
+            if any(f is None for f in floats):
+                log.warning(
+                    f"Cannot set non-stroke color because not all values in {values!r} can be parsed as floats"
+                )
+            else:
+                self.graphicstate.ncolor = tuple(cast(List[float], floats))
 
     def do_SC(self) -> None:
         """Set color for stroking operations"""
